@@ -489,6 +489,61 @@ pub fn add_data_read(prog: &mut Vec<S>, rng: &mut Rng) {
     }
 }
 
+
+// ------------------------------------------------------------------ CASE lists and empty blocks
+
+/// SELECT CASE with two tests per CASE, every pair of IS operators (and ranges), the selector running
+/// over the values around the limits
+pub fn case_list_programs() -> Vec<Vec<S>> {
+    let ops = [Operator::Less, Operator::LessOrEqual, Operator::Equal, Operator::GreaterOrEqual, Operator::Greater, Operator::NotEqual];
+    let mut out = vec![];
+    for (i, o1) in ops.iter().enumerate() {
+        for (j, o2) in ops.iter().enumerate() {
+            let cases = vec![
+                (vec![CaseE::Is(bop_index(*o1), lit_i(1)), CaseE::Is(bop_index(*o2), lit_i(3))], vec![print_str("a")]),
+                (vec![CaseE::Range(lit_i(0), lit_i(1)), CaseE::Simple(lit_i(4)), CaseE::Is(bop_index(*o1), lit_i(2))], vec![print_str("b")]),
+            ];
+            let els = if (i + j) % 2 == 0 { Some(vec![print_str("e")]) } else { None };
+            let body = vec![s(SK::Print(vec![PArg::Expr(var("N1%")), PArg::Semi])), s(SK::Select(var("N1%"), cases, els))];
+            out.push(vec![s(SK::For("N1%".into(), lit_i(-1), lit_i(5), None, body)), print_str("end")]);
+        }
+    }
+    out
+}
+
+/// every construct with every one of its blocks empty
+pub fn empty_block_programs() -> Vec<Vec<S>> {
+    let t = || bin(Operator::Equal, lit_i(1), lit_i(1));
+    let f = || bin(Operator::Equal, lit_i(1), lit_i(2));
+    let p = |x: &str| vec![print_str(x)];
+    let mut out: Vec<Vec<S>> = vec![];
+    for c in [true, false] {
+        let cond = || if c { t() } else { f() };
+        out.push(vec![s(SK::If(cond(), vec![], vec![], None)), print_str("end")]);
+        out.push(vec![s(SK::If(cond(), vec![], vec![], Some(vec![]))), print_str("end")]);
+        out.push(vec![s(SK::If(cond(), p("t"), vec![], Some(vec![]))), print_str("end")]);
+        out.push(vec![s(SK::If(cond(), vec![], vec![], Some(p("e")))), print_str("end")]);
+        out.push(vec![s(SK::If(f(), p("t"), vec![(cond(), vec![])], Some(p("e")))), print_str("end")]);
+        out.push(vec![s(SK::If(f(), vec![], vec![(cond(), vec![]), (t(), vec![])], Some(vec![]))), print_str("end")]);
+        out.push(vec![s(SK::If(f(), p("t"), vec![(cond(), p("ei"))], Some(vec![]))), print_str("end")]);
+    }
+    for subject in [1, 2, 7] {
+        out.push(vec![s(SK::Select(lit_i(subject), vec![(vec![CaseE::Simple(lit_i(1))], vec![]), (vec![CaseE::Simple(lit_i(2))], p("two"))], Some(vec![]))), print_str("end")]);
+        out.push(vec![s(SK::Select(lit_i(subject), vec![(vec![CaseE::Simple(lit_i(1)), CaseE::Simple(lit_i(2))], vec![])], None)), print_str("end")]);
+        out.push(vec![s(SK::Select(lit_i(subject), vec![(vec![CaseE::Simple(lit_i(1))], p("one"))], Some(vec![]))), print_str("end")]);
+    }
+    out.push(vec![s(SK::For("Q1%".into(), lit_i(1), lit_i(3), None, vec![])), s(SK::Print(vec![PArg::Expr(var("Q1%"))]))]);
+    out.push(vec![s(SK::For("Q1%".into(), lit_i(3), lit_i(1), Some(lit_i(-1)), vec![])), s(SK::Print(vec![PArg::Expr(var("Q1%"))]))]);
+    out.push(vec![s(SK::While(f(), vec![])), print_str("end")]);
+    out.push(vec![s(SK::Do(true, false, f(), vec![])), print_str("end")]);
+    out.push(vec![s(SK::Do(true, true, t(), vec![])), print_str("end")]);
+    out.push(vec![s(SK::Do(false, true, t(), vec![])), print_str("end")]);
+    out.push(vec![s(SK::Do(false, false, f(), vec![])), print_str("end")]);
+    // an empty block inside a non-empty one
+    out.push(vec![s(SK::For("Q1%".into(), lit_i(1), lit_i(2), None, vec![s(SK::If(t(), vec![], vec![], Some(vec![]))), print_str("in")])), print_str("end")]);
+    out
+}
+
 // ------------------------------------------------------------------ the nesting matrix
 
 /// the ten ways a block can be enclosed: five loops (different bounds and steps, so that a mixed-up
@@ -1206,7 +1261,7 @@ impl<'a> Gen<'a> {
                     let cs: Vec<CaseE> = (0..m)
                         .map(|_| match self.rng.below(3) {
                             0 => CaseE::Simple(self.num_lit()),
-                            1 => CaseE::Is(bop_index(*self.rng.pick(&[Operator::Less, Operator::Greater, Operator::GreaterOrEqual, Operator::NotEqual])), self.num_lit()),
+                            1 => CaseE::Is(bop_index(*self.rng.pick(&[Operator::Less, Operator::LessOrEqual, Operator::Equal, Operator::Greater, Operator::GreaterOrEqual, Operator::NotEqual])), self.num_lit()),
                             _ => CaseE::Range(e(EK::Lit(Lit::Int(self.rng.range(0, 3) as i32))), e(EK::Lit(Lit::Int(self.rng.range(3, 9) as i32)))),
                         })
                         .collect();
@@ -1375,9 +1430,16 @@ pub fn run(args: &Args) {
     let lookalikes = lookalike_programs();
     let n_look = lookalikes.len();
     let mut lookalikes = lookalikes.into_iter();
-    for k in 0..(n + n_nests + n_look) {
+    let mut fixed: Vec<Vec<S>> = case_list_programs();
+    fixed.extend(empty_block_programs());
+    let n_fixed = fixed.len();
+    let mut fixed = fixed.into_iter();
+    for k in 0..(n + n_nests + n_look + n_fixed) {
         let mut indents: Vec<(u32, u32)> = vec![];
-        let mut prog = if let Some((p, ind)) = lookalikes.next() {
+        let mut prog = if let Some(p) = fixed.next() {
+            sum.count("case_list_and_empty_block_programs");
+            p
+        } else if let Some((p, ind)) = lookalikes.next() {
             sum.count("lookalike_position_programs");
             indents = ind;
             p
@@ -1474,6 +1536,6 @@ pub fn run(args: &Args) {
     sum.write(
         &args.out,
         evaluations,
-        "programs generated from the core grammar by a typed generator (expressions of depth <= 2 over the 13 binary and 2 unary operators, five value types, boundary literals; assignment, PRINT with separators, IF/ELSEIF/ELSE, WHILE, the four DO forms, FOR with positive, negative, absent and run-time computed STEP, SELECT CASE with simple/IS/range/multiple tests; in every third program DATA statements at random top-level places and READ statements anywhere (also in loops and branches) with items of all five types, so that conversions, Type mismatch, Overflow and Out of DATA occur; nesting depth 2 (quick) / 3 (thorough)); plus 30 programs with two constructs of the same kind at positions whose digits read alike ((1, 11) and (11, 1) ...), plus the nesting matrix: every (outer, middle, inner) triple over five loop kinds with different bounds and steps and five branch positions (THEN, ELSEIF, ELSE, a later CASE, CASE ELSE), the innermost block printing all enclosing counters - all 1000 triples (thorough) / the loop-branch-loop triples and a seeded sample (quick); run-time errors arise from the boundary literals (overflow, division by zero, zero step). For each program: literal comparison of the real instruction list and statement addresses with the Coq generator model; outcome (code, row, col), output bytes and final variables against the Coq VM model and against the big-step reference semantics. Cases whose output contains a number outside the exactly printable domain skip the byte comparison. Non-trivial = at least one control construct; distinct by instruction list.",
+        "programs generated from the core grammar by a typed generator (expressions of depth <= 2 over the 13 binary and 2 unary operators, five value types, boundary literals; assignment, PRINT with separators, IF/ELSEIF/ELSE, WHILE, the four DO forms, FOR with positive, negative, absent and run-time computed STEP, SELECT CASE with simple/IS/range/multiple tests; in every third program DATA statements at random top-level places and READ statements anywhere (also in loops and branches) with items of all five types, so that conversions, Type mismatch, Overflow and Out of DATA occur; nesting depth 2 (quick) / 3 (thorough)); plus 36 SELECT CASE programs with two or three tests per CASE (every pair of IS operators, ranges) over selectors around the limits, every construct with each of its blocks empty, 30 programs with two constructs of the same kind at positions whose digits read alike ((1, 11) and (11, 1) ...), plus the nesting matrix: every (outer, middle, inner) triple over five loop kinds with different bounds and steps and five branch positions (THEN, ELSEIF, ELSE, a later CASE, CASE ELSE), the innermost block printing all enclosing counters - all 1000 triples (thorough) / the loop-branch-loop triples and a seeded sample (quick); run-time errors arise from the boundary literals (overflow, division by zero, zero step). For each program: literal comparison of the real instruction list and statement addresses with the Coq generator model; outcome (code, row, col), output bytes and final variables against the Coq VM model and against the big-step reference semantics. Cases whose output contains a number outside the exactly printable domain skip the byte comparison. Non-trivial = at least one control construct; distinct by instruction list.",
     );
 }
